@@ -838,6 +838,30 @@ def run_helpers(ctx, reqs, pending):
                           f'{rng.start}..{rng.stop - 1}, start -7..7, step in {steps} ({n} cells)')
 
 
+def run_slice_grid(ctx, reqs, pending):
+    """L2: the hand-written slice semantics of the model (`getitemAxis`: _check_slice + CPython slice.indices +
+    size arithmetic of `_prepare_getitem_index`) against real indexing of a VolumeGeometry along one axis."""
+    from highdicom.volume import VolumeGeometry
+    ns = range(1, 5) if ctx.tier == 'quick' else range(1, 7)
+    cells = 0
+    for n in ns:
+        g = VolumeGeometry(np.eye(4), (n, 1, 1), 'PATIENT')
+        for start in range(-n - 2, n + 2):
+            for stop in [None] + list(range(-n - 3, n + 3)):
+                for step in (-3, -2, -1, 0, 1, 2, 3):
+                    st, res = _call(lambda: g[slice(start, stop, step)])
+                    if st == 'ok':
+                        A = res.affine
+                        impl = ('ok', [int(round(A[0, 3])), int(round(A[0, 0])), int(res.spatial_shape[0])])
+                    else:
+                        impl = ('err', _err_kind(res))
+                    reqs.append(('getitemAxis', {'start': start, 'stop': stop, 'step': step, 'n': n}))
+                    pending.append(('slice', {'n': n, 'start': start, 'stop': stop, 'step': step, 'layer': 'L2'}, impl, None))
+                    cells += 1
+    ctx.exhaustive.append(f'slice semantics (model getitemAxis vs VolumeGeometry indexing): n in {ns.start}..{ns.stop - 1}, '
+                          f'start -n-2..n+1, stop None/-n-3..n+2, step -3..3 ({cells} cells)')
+
+
 def check_plan(ctx, cell, ans):
     ctx.case(stream='plan-grid')
     if 'ok' not in ans:
@@ -900,13 +924,19 @@ def _resolve(ctx, reqs, pending):
                         break
         elif kind == 'plan':
             check_plan(ctx, case, ans)
+        elif kind == 'slice':
+            ctx.case(stream='slice-grid')
+            model = ('ok', ans['ok']) if 'ok' in ans else ('err', ans.get('err', 'proto'))
+            if model[0] != impl[0] or (impl[0] == 'ok' and model[1] != impl[1]):
+                ctx.disagree('L2', case, impl, model, 'slice semantics of one axis')
 
 
 def run(ctx, only=None):
     reqs, pending = [], []
     if only is None:
         run_helpers(ctx, reqs, pending)
-    budget = {'chain': ctx.n(220, 3000), 'perturb': ctx.n(160, 2400), 'geq': ctx.n(200, 3000), 'v2v': ctx.n(120, 1500)}
+        run_slice_grid(ctx, reqs, pending)
+    budget = {'chain': ctx.n(1000, 12000), 'perturb': ctx.n(800, 9000), 'geq': ctx.n(1000, 10000), 'v2v': ctx.n(500, 5000)}
     for stream, fn in STREAMS.items():
         if only is not None and only[0] != stream:
             continue
